@@ -186,9 +186,16 @@ func runC16(c *ctx, r *Report) error {
 		}
 		r.nontrivial("inject:" + pl)
 		l2, _ := mkLinter(&oneline, true, "")
-		errs2, _ := l2.Lint("inj.yaml", []byte(src), nil)
+		var errs2, errs3 []*actionlint.Error
+		if pm, _ := guarded(20e9, func() { errs2, _ = l2.Lint("inj.yaml", []byte(src), nil) }); pm != "" {
+			r.Crashes = append(r.Crashes, mk("-oneline: "+pm))
+			continue
+		}
 		l3, _ := mkLinter(&jsonOut, false, "{{json .}}")
-		errs3, _ := l3.Lint("inj.yaml", []byte(src), nil)
+		if pm, _ := guarded(20e9, func() { errs3, _ = l3.Lint("inj.yaml", []byte(src), nil) }); pm != "" {
+			r.Crashes = append(r.Crashes, mk("-format '{{json .}}': "+pm))
+			continue
+		}
 		if len(errs2) != len(errs) || len(errs3) != len(errs) {
 			r.finding("mode-changes-diagnostics", "the three reporting modes returned different numbers of diagnostics", mk(""))
 		}
@@ -253,7 +260,7 @@ func runC16(c *ctx, r *Report) error {
 	}
 
 	// (3) snippet renderer
-	srcAlpha := []string{"a", "b", " ", "\n", "\r\n", "\t", "é", "日本", "x", "\xff", "\n\n", "한", "ｆ", "語 "}
+	srcAlpha := []string{"a", "b", " ", "\n", "\r\n", "\r", "\u0085", "\u2028", "\t", "é", "日本", "x", "\xff", "\n\n", "한", "ｆ", "語 "}
 	for i := 0; i < nSnip; i++ {
 		var sb strings.Builder
 		n := rng.Intn(12)
